@@ -24,6 +24,9 @@ type enumAlias struct {
 	Pkg, Name, TargetPkg, TargetName string
 }
 
+// enumDirty is what the destination of UnmarshalText holds before the call (0: a fresh variable)
+var enumDirty uint64
+
 // filled by zz_enums_gen.go
 var (
 	enumTypes   []enumType
@@ -53,7 +56,12 @@ func safeUnmarshal(t enumType, text []byte) (v uint64, isErr, pan bool) {
 
 func probeEnum(t enumType, v uint64, of []int) M {
 	text, merr, p1 := safeMarshal(t, v)
+	enumDirty = 0
 	back, uerr, p2 := safeUnmarshal(t, text)
+	// the same text parsed into a variable that already holds another value (a reused message struct)
+	enumDirty = ^v
+	back2, uerr2, p3 := safeUnmarshal(t, text)
+	enumDirty = 0
 	str := ""
 	func() {
 		defer func() { recover() }()
@@ -62,7 +70,8 @@ func probeEnum(t enumType, v uint64, of []int) M {
 	if of == nil {
 		of = []int{}
 	}
-	return M{"v": le(v, 8), "text": text, "merr": merr, "back": le(back, 8), "uerr": uerr, "panic": p1 || p2, "str": B(str), "of": of}
+	return M{"v": le(v, 8), "text": text, "merr": merr, "back": le(back, 8), "uerr": uerr, "panic": p1 || p2 || p3, "str": B(str), "of": of,
+		"back2": le(back2, 8), "uerr2": uerr2}
 }
 
 // cmdEnums: C19 (ENUM records) and the enum-constant table for C17 (XENUM records).
